@@ -476,3 +476,19 @@ def planning(V):
         V.close(g.orientation.end - g.orientation.start, hi - lo, 1e-9),
         V.exists_int(-2, 2, lambda k: V.close(g.orientation.start, lo + a + TWO_PI * k, 1e-9))))
     V.prove("goal: time interval kept", V.And(g.time_step.start == 0, g.time_step.end == 10))
+
+
+_T = "commonroad.geometry.transform:"
+MUTANTS = [
+    dict(name="rotation-sign-flipped", target=_T + "translation_rotation_matrix", old="[[cos_angle, -sin_angle, 0.0], [sin_angle, cos_angle, 0.0]",
+         new="[[cos_angle, sin_angle, 0.0], [-sin_angle, cos_angle, 0.0]", only="transform.translate_rotate"),
+    dict(name="rotate-before-translate", target=_T + "translation_rotation_matrix", old="return rotation_matrix.dot(translation_matrix)",
+         new="return translation_matrix.dot(rotation_matrix)", only="shape.circle"),
+    dict(name="pm-velocity-not-rotated", target="commonroad.scenario.state:PMState.translate_rotate",
+         old="transformed_state.velocity_y = sin_angle * self.velocity + cos_angle * self.velocity_y",
+         new="transformed_state.velocity_y = self.velocity_y", only="state.PMState"),
+    dict(name="lanelet-centre-not-moved", target="commonroad.scenario.lanelet:Lanelet.translate_rotate", old="        self._center_vertices = tmp.transpose()\n",
+         new="", only="lanelet"),
+    dict(name="scenario-skips-environment-obstacles", target="commonroad.scenario.scenario:Scenario.translate_rotate", old="for obstacle in self.obstacles:",
+         new="for obstacle in self.static_obstacles + self.dynamic_obstacles + self.phantom_obstacle:", only="scenario.mix"),
+]
